@@ -651,6 +651,15 @@ func idFor(class string, i int) string {
 		return "idd" + strconv.Itoa(i) + "/"
 	case "frag":
 		return "#id" + strconv.Itoa(i)
+	case "absodd":
+		// an absolute id whose authority is not in canonical form (upper-case host, explicit default port)
+		return "HTTP://IDS.Example:80/s" + strconv.Itoa(i) + ".json"
+	case "badpct":
+		return "100%/schemas/"
+	case "badhost":
+		return "http://[::1/s" + strconv.Itoa(i) + ".json"
+	case "colon":
+		return ":pet" + strconv.Itoa(i)
 	}
 	return class
 }
